@@ -331,9 +331,21 @@ func boundarySuffixes(r *rng, plen, max int, alphabet string) []string {
 	out = append(out, long[:len(long)-1]+"#", long+"x")
 	// the text a shortened `long` turns into, used as an identity itself
 	if room >= 2 {
+		// (at every limit: the shortened form carries min(room-1, 43) digest characters, so under the
+		// nftables limit the clashing identity is "_" + the whole 43-character digest text)
 		h := b64sha256(long)
-		if room-1 <= len(h) {
-			out = append(out, "_"+h[:room-1])
+		k := room - 1
+		if k > len(h) {
+			k = len(h)
+		}
+		out = append(out, "_"+h[:k])
+		// same for the other over-long members of the cluster
+		h2 := b64sha256(long + "x")
+		out = append(out, "_"+h2[:k])
+		if k == len(h) && room-1 > k {
+			out = append(out, "_"+randStr(r, alphabet, k))   // exactly as long as a shortened name, starts with marker
+			out = append(out, "_"+randStr(r, alphabet, k-1)) // one shorter
+			out = append(out, "_"+randStr(r, alphabet, k+1)) // one longer
 		}
 		out = append(out, "_"+randStr(r, alphabet, room-1)) // exact fit, starts with marker
 		out = append(out, "_"+randStr(r, alphabet, room-2)) // one short of the limit, starts with marker
@@ -384,6 +396,55 @@ func genPolicy(r *rng, target int) types.PolicyID {
 	}
 	p.Name = resName(r, rest)
 	return p
+}
+
+// colliderCase: for an over-long identity X at (prefix, limit), the identity whose text is exactly what X's
+// shortened name carries after the prefix ("_" + digest characters) -- through GetLengthLimitedID directly, as a
+// profile name and as an interface name, under the iptables, ipset-sized and nftables limits.
+func colliderCase(r *rng, c *caseT, which int) {
+	c.tags["theme:collider"] = true
+	carried := func(prefix, x string, max int) string {
+		k := max - 1 - len(prefix)
+		h := b64sha256(x)
+		if k > len(h) {
+			k = len(h)
+		}
+		return "_" + h[:k]
+	}
+	nft := which%2 == 0
+	if nft {
+		c.tags["limit:nft"] = true
+	}
+	max := maxChain(nft)
+	switch which % 3 {
+	case 0: // profiles (ksa.<ns>.<name> style, too long for the limit)
+		for _, inb := range []bool{true, false} {
+			pfx := string(rules.ProfileOutboundPfx)
+			if inb {
+				pfx = string(rules.ProfileInboundPfx)
+			}
+			x := "ksa." + resName(r, 5+r.intn(20)) + "." + resName(r, max-len(pfx)-10+r.intn(12))
+			for len(pfx)+len(x) <= max {
+				x += "x"
+			}
+			c.profile(inb, nft, x)
+			c.profile(inb, nft, carried(pfx, x, max))
+			c.profile(!inb, nft, carried(pfx, x, max))
+		}
+	case 1: // endpoints, every prefix
+		for _, pfx := range endpointPrefixes {
+			x := randStr(r, ifaceChars, max-len(pfx)+1+r.intn(8))
+			c.endpoint(pfx, x, nft)
+			c.endpoint(pfx, carried(pfx, x, max), nft)
+		}
+	default: // direct calls at several limits
+		for _, m := range []int{28, 31, 256, 60, 52, 53} {
+			p := r.pick([]string{"cali-pi-", "cali-pri-", "cali-tw-", "cali40", ""})
+			x := randStr(r, ifaceChars, m-len(p)+1+r.intn(8))
+			c.raw(p, x, m)
+			c.raw(p, carried(p, x, m), m)
+		}
+	}
 }
 
 func genCase(r *rng, c *caseT) {
@@ -459,7 +520,7 @@ func genCase(r *rng, c *caseT) {
 		c.profile(true, nft, ps[0].ID())
 	case 4: // profiles
 		c.tags["theme:profile"] = true
-		nft := r.intn(8) == 0
+		nft := r.intn(3) == 0
 		inb := r.intn(2) == 0
 		plen := 9
 		for _, s := range boundarySuffixes(r, plen, maxChain(nft), nameChars) {
@@ -469,7 +530,7 @@ func genCase(r *rng, c *caseT) {
 		c.profile(inb, nft, "ksa."+resName(r, 3+r.intn(10))+"."+resName(r, 3+r.intn(10)))
 	case 5: // endpoints
 		c.tags["theme:endpoint"] = true
-		nft := r.intn(8) == 0
+		nft := r.intn(3) == 0
 		pfx := r.pick(endpointPrefixes)
 		for i := 0; i < 4; i++ {
 			n := 1 + r.intn(15)
@@ -621,7 +682,11 @@ func main() {
 	enc := json.NewEncoder(os.Stdout)
 	for i := 0; i < *n; i++ {
 		c := newCase()
-		genCase(r, c)
+		if i < 6 || i%25 == 0 {
+			colliderCase(r, c, i)
+		} else {
+			genCase(r, c)
+		}
 		var os_, keys []string
 		for _, o := range c.obs {
 			os_ = append(os_, fmt.Sprintf("{| o_id := %s; o_name := %s; o_again := %s |}", o.id, copt(o.name), copt(o.again)))
